@@ -105,8 +105,9 @@ Proof.
       done_step H. split; [reflexivity|].
       apply out_calm; [exact HS1 | exact HB' | idtac | idtac | idtac | idtac]; [| |rewrite reg_grd_return, Esn, Ec1; cbn; lia | now apply calm_grd_return].
       * apply (EffReg _ _ _ _ (op_db (n_op nd))). split; [exact Hcur|]. split; [exact Est|]. split; [exact Hmod|].
-        split; [exact Hq|]. split; [now left|]. split.
+        split; [exact Hq|]. split; [now left|]. split; [|split].
         -- left. intros (e0 & c0 & cf0 & _ & Hx & _). congruence.
+        -- left. intros e' He'. congruence.
         -- now rewrite Hwf.
       * apply claimsQ_grd_none; [exact Hwf|]. intros _. cbn. rewrite Esn. cbn.
         split; [now rewrite Er1|]. split; [now rewrite Ecf1|]. split; [left; now rewrite Er1 | exact Hq].
@@ -215,7 +216,10 @@ Proof.
       { intros (e1 & c2 & cf2 & S1 & S2 & S3). destruct Hsh as [(A & B)|(e0 & c1 & cf & A & B & C & D & E & F)]; [congruence|].
         rewrite A in S1. injection S1 as <-. rewrite D in S2. injection S2 as <- <-. apply C. now rewrite S3. }
       split; [destruct Hsh as [(A & B)|(e0 & c1 & cf & A & B & C & D & E & F)]; [now left | right; eauto]|].
-      split; [now left|]. destruct (is_load (n_op nd)) eqn:El; [exact Hns|]. apply Hk. now rewrite <- Hwf.
+      split; [now left|]. split.
+      { left. intros e' He'. destruct Hsh as [(A & B)|(e0 & c1 & cf & A & B & C & D & E & F)]; [congruence|].
+        rewrite F in He'. injection He' as <-. cbn. now apply live_not_deleted. }
+      destruct (is_load (n_op nd)) eqn:El; [exact Hns|]. apply Hk. now rewrite <- Hwf.
     + done_step H. split; [reflexivity|]. apply out_same; [exact HS | exact HB | idtac | idtac | idtac];
         [apply claimsQ_gdc_reload | now rewrite reg_gdc_reload | apply calm_gdc_reload].
   - (* PMainWrite *)
@@ -227,28 +231,40 @@ Proof.
           [apply claimsQ_main_retry | now rewrite reg_main_retry | apply calm_main_retry]. }
     destruct (write_reg_ok _ _ _ _ HS Wr) as (Hcur & Est & Esn). destruct (Hcurc Hcur) as (Hmod & Hq & Hsh).
     unfold hyp_c in Hc. rewrite Hpc in Hc. apply negb_true_iff in Hc.
-    assert (nobusy final_pc (op_db (n_op nd)) w i) as Hnf.
-    { intros j X _ Hn. eapply existsb_false_nth; eauto. }
-    assert (nobusy active_pc (op_db (n_op nd)) w i) as Hna.
-    { intros j X Hj Hn. rewrite busy_active_split, (Hq j X Hj Hn), (Hnf j X Hj Hn). reflexivity. }
+    assert (forall j X, nth_error (w_nodes w) j = Some X -> busy final_pc (op_db (n_op nd)) X = true ->
+                        is_insert (n_op nd) = true /\ is_delete (n_op X) = true) as Hblk.
+    { intros j X Hn Hbf. pose proof (existsb_false_nth _ _ _ _ Hc Hn) as E. unfold blocks in E. rewrite Hbf in E. cbn in E.
+      apply negb_false_iff in E. now apply andb_true_iff in E. }
     assert (linked (aget (sn_reg (n_reg nd)) (op_db (n_op nd))) (aget (s_cfg (w_st w)) (op_db (n_op nd))) /\
             (aget (s_cfg (w_st w)) (op_db (n_op nd)) = None \/
-             exists e0, aget (regc (w_st w)) (op_db (n_op nd)) = Some e0 /\ is_deleted (rv_ver (e_cur e0)) = false)) as [Hlk HpreA].
-    { unfold MShape in Hsh. destruct (n_op nd) as [d dig cols|d dig cols|d|]; destruct cs as [[cas cf]|]; try (exfalso; exact Hsh); cbn.
-      - destruct Hsh as (A & e & B & C & D). rewrite A, B. split; [|now left]. cbn. left. split; [|exact D].
-        rewrite C. unfold live, gen. cbn. lia.
-      - destruct Hsh as (A & (c0 & B) & (e0 & C1 & C2) & e & D1 & D2 & D3). rewrite B, D1. split.
+             exists e0, aget (regc (w_st w)) (op_db (n_op nd)) = Some e0 /\ is_deleted (rv_ver (e_cur e0)) = false) /\
+            (~ steady (w_st w) (op_db (n_op nd)) \/ nobusy final_pc (op_db (n_op nd)) w i) /\
+            ((forall e', aget (sn_reg (n_reg nd)) (op_db (n_op nd)) = Some e' -> is_deleted (rv_ver (e_cur e')) = false) \/
+             nobusy final_pc (op_db (n_op nd)) w i)) as (Hlk & HpreA & HpreC & HpreD).
+    { assert (is_insert (n_op nd) = false -> nobusy final_pc (op_db (n_op nd)) w i) as Hnf.
+      { intros Hni j X _ Hn. destruct (busy final_pc (op_db (n_op nd)) X) eqn:E; [|reflexivity].
+        destruct (Hblk j X Hn E). congruence. }
+      unfold MShape in Hsh. destruct (n_op nd) as [d dig cols|d dig cols|d|]; destruct cs as [[cas cf]|]; try (exfalso; exact Hsh); cbn in *.
+      - destruct Hsh as (A & e & B & C & D). rewrite A, B. split; [|split; [now left|split]].
+        + cbn. left. split; [|exact D]. rewrite C. unfold live, gen. cbn. lia.
+        + left. intros (e1 & c1 & cf1 & _ & S2 & _). congruence.
+        + left. intros e' [= <-]. now rewrite C.
+      - destruct Hsh as (A & (c0 & B) & (e0 & C1 & C2) & e & D1 & D2 & D3). rewrite B, D1. split; [|split; [|split]].
         + cbn. split; [exact A|]. right. left. split; [exact D3|]. rewrite D2. cbn. reflexivity.
         + right. exists e0. split; [exact C1|]. rewrite C2. cbn. now apply live_not_deleted.
-      - destruct Hsh as (A & (c0 & B) & (e0 & C1 & C2) & e & D1 & D2 & D3). rewrite B, D1. split.
+        + right. now apply Hnf.
+        + right. now apply Hnf.
+      - destruct Hsh as (A & (c0 & B) & (e0 & C1 & C2) & e & D1 & D2 & D3). rewrite B, D1. split; [|split; [|split]].
         + cbn. split; [exact A|]. right. right. auto.
-        + right. exists e0. split; [exact C1|]. rewrite C2. cbn. now apply live_not_deleted. }
+        + right. exists e0. split; [exact C1|]. rewrite C2. cbn. now apply live_not_deleted.
+        + right. now apply Hnf.
+        + right. now apply Hnf. }
     destruct (reg_write_out _ _ _ _ HS HB Hcur Est Hmod Hlk) as (HS1 & HB' & Er1 & Ec1 & Ecf1 & Ek1 & Hrne).
     assert (is_load (n_op nd) = false) as Hl by exact Hwf.
     done_step H. split; [reflexivity|].
     split; [exact HS1|]. split; [exact HB'|]. split.
     { apply (EffReg _ _ _ _ (op_db (n_op nd))). split; [exact Hcur|]. split; [exact Est|]. split; [exact Hmod|].
-      split; [exact Hq|]. split; [exact HpreA|]. split; [now right | now rewrite Hl]. }
+      split; [exact Hq|]. split; [exact HpreA|]. split; [exact HpreC|]. split; [exact HpreD | now rewrite Hl]. }
     split.
     { (* the claims of the node now in flight *)
       unfold main_next in Mn. unfold MShape in Hsh. unfold ClaimsQ. cbn [n_pc n_op n_reg].
@@ -266,7 +282,11 @@ Proof.
         split; [rewrite Ek1; lia|]. split; [rewrite Ecf1; eauto|]. exists e, (c_ver cf). rewrite Er1. auto. }
     split; [cbn; rewrite Esn, Ec1; cbn; lia|].
     split; [intros E; exfalso; exact (Hrne E)|].
-    split; [intros _ _; exact Hna|].
+    split.
+    { intros _ _ j X Hj Hn Hba. rewrite busy_active_split, (Hq j X Hj Hn) in Hba. cbn in Hba.
+      destruct (Hblk j X Hn Hba) as [Hi1 Hd1]. pose proof (busy_true _ _ _ Hba) as (_ & _ & Hfp). split.
+      - unfold weakfin. now rewrite Hfp, Hd1.
+      - cbn. unfold main_next in Mn. destruct (n_op nd); try discriminate. now injection Mn as <-. }
     cbn. intros E. exfalso. unfold main_next in Mn. destruct (n_op nd); try destruct cs as [[? ?]|]; try discriminate; injection Mn as <-; discriminate.
   - (* PInsCfg *)
     destruct HC as (Hns & H0).
@@ -316,7 +336,7 @@ Proof.
     apply out_gen; auto; try (cbn; discriminate).
     + apply (EffCfg _ _ _ _ d). split; [exact Hr|]. split; [exact Hk|]. split; [exact Ho|].
       split; [intros c0 cf0 Hx0; rewrite Hn in Hx0; discriminate|]. right. left. rewrite Hpc, Eo. auto.
-    + unfold ClaimsQ. cbn. rewrite Eo. cbn. exact Hn.
+    + unfold ClaimsQ. cbn. rewrite Eo. cbn. intros e0 _ _. exact Hn.
     + cbn. rewrite (scas_reg _ _ Hr). exact Hcas.
     + intros _. rewrite Hpc. reflexivity.
   - (* PFinGet *)
@@ -341,30 +361,36 @@ Proof.
         -- cbn. apply cas_read.
         -- intros _. rewrite Eo. exact HC.
     + (* delete *)
-      destruct (aget (regc (w_st w)) d) as [e0|] eqn:He; done_step H; (split; [reflexivity|]).
-      * apply out_gen; auto; try (cbn; discriminate).
-        -- now apply EffNone.
-        -- unfold ClaimsQ. cbn. rewrite Eo. cbn. split; [exact HC|]. intros _. split.
+      destruct (aget (regc (w_st w)) d) as [e0|] eqn:He.
+      * destruct (is_deleted (rv_ver (e_cur e0))) eqn:Hdl; cbn in H; done_step H; (split; [reflexivity|]).
+        -- (* still the entry marked deleted: remove it *)
+           apply out_gen; [exact HS | exact HB | now apply EffNone | | cbn; apply cas_read | cbn; discriminate
+                          | intros _; rewrite Hpc; reflexivity | cbn; discriminate].
+           unfold ClaimsQ. cbn. rewrite Eo. cbn.
+           split; [intros e1 He1 Hd1; rewrite He in He1; exact (HC e1 He1 Hd1)|]. intros _. split.
            ++ intros x Hx. cbn. apply aget_adel_neq. congruence.
-           ++ cbn. apply aget_adel_eq.
-        -- cbn. apply cas_read.
-        -- intros _. rewrite Hpc. reflexivity.
-      * apply out_gen; auto; try (cbn; discriminate).
-        -- now apply EffNone.
-        -- exact I.
-        -- cbn. apply cas_read.
-        -- intros _. rewrite Eo. cbn. auto.
+           ++ split; [cbn; apply aget_adel_eq | exists e0; auto].
+        -- (* the database has been created again: leave it *)
+           apply out_gen_r; [exact HS | exact HB | now apply EffNone | exact I | cbn; apply cas_read | cbn; discriminate
+                            | cbn; discriminate |].
+           intros _. right. exists d, e0. rewrite Eo. auto.
+      * done_step H. split; [reflexivity|].
+        apply out_gen; [exact HS | exact HB | now apply EffNone | exact I | cbn; apply cas_read | cbn; discriminate
+                       | cbn; discriminate |].
+        intros _. rewrite Eo. cbn. split; [exact He|].
+        pose proof (HLk d) as HL. rewrite He in HL. destruct (aget (s_cfg (w_st w)) d); [destruct HL | reflexivity].
   - (* PFinWrite *)
     destruct HC as (HF & Hcurc).
     assert (busy active_pc (op_db (n_op nd)) nd = true) as Hact.
     { apply busy_intro; auto. rewrite Hpc. reflexivity. }
-    pose proof (alone_of_active _ _ _ _ Hone Hi Hact) as Hna.
     destruct (write_reg (w_st w) (n_reg nd)) as [[st1 sn1]|] eqn:Wr.
     + destruct (write_reg_ok _ _ _ _ HS Wr) as (Hcur & Est & Esn). destruct (Hcurc Hcur) as (Hmod & Hsh).
       unfold FinClaim in HF.
       destruct (n_op nd) as [d dig cols|d dig cols|d|] eqn:Eo; try (exfalso; exact HF); cbn [op_db] in *.
       * (* update *)
         pose proof (steady_live _ _ HS (acked_update_steady _ _ _ _ HF)) as (e1 & c1 & cf1 & S1 & S2 & S3 & S4 & S5).
+        assert (nobusy active_pc d w i) as Hna.
+        { apply (alone_of_active _ _ nd); auto; [unfold weakfin; rewrite Eo; apply andb_false_r | congruence]. }
         destruct HF as (e & c & g & He & Hcu & Hcf). destruct Hsh as (e0 & He0 & Hn0).
         rewrite He in He0. injection He0 as <-. rewrite He in S1. injection S1 as <-.
         destruct (reg_write_out _ _ _ _ HS HB Hcur Est Hmod) as (HS1 & HB' & Er1 & Ec1 & Ecf1 & Ek1 & Hrne).
@@ -373,18 +399,20 @@ Proof.
         apply out_gen; auto; try (cbn; discriminate).
         -- apply (EffReg _ _ _ _ d). split; [exact Hcur|]. split; [exact Est|]. split; [exact Hmod|].
            split; [now apply nobusy_active_inflight|]. split; [right; eauto|].
-           split; [right; now apply nobusy_active_final|]. now rewrite Eo.
+           split; [right; now apply nobusy_active_final|]. split; [right; now apply nobusy_active_final | now rewrite Eo].
         -- exact I.
         -- cbn. rewrite Esn, Ec1. cbn. lia.
         -- intros _. rewrite Eo. cbn. exists (RE (e_cur e) None), c, g. rewrite Er1, Ecf1. auto.
       * (* delete *)
+        destruct Hsh as (Hnn & e0 & He0 & Hd0). pose proof (HF e0 He0 Hd0) as Hcf0.
         destruct (reg_write_out _ _ _ _ HS HB Hcur Est Hmod) as (HS1 & HB' & Er1 & Ec1 & Ecf1 & Ek1 & Hrne).
-        { rewrite Hsh, HF. exact I. }
+        { rewrite Hnn, Hcf0. exact I. }
         done_step H. split; [reflexivity|].
         apply out_gen; auto; try (cbn; discriminate).
         -- apply (EffReg _ _ _ _ d). split; [exact Hcur|]. split; [exact Est|]. split; [exact Hmod|].
-           split; [now apply nobusy_active_inflight|]. split; [now left|].
-           split; [right; now apply nobusy_active_final|]. now rewrite Eo.
+           split; [apply quiet_of_absent; auto; right; exists e0; split; [exact He0 | now apply is_deleted_true]|].
+           split; [now left|]. split; [left; intros (e1 & c1 & cf1 & _ & S2 & _); congruence|].
+           split; [left; intros e' He'; congruence | now rewrite Eo].
         -- exact I.
         -- cbn. rewrite Esn, Ec1. cbn. lia.
         -- intros _. rewrite Eo. cbn. rewrite Er1, Ecf1. auto.
